@@ -1,6 +1,8 @@
 import LoguruModel.Queue.Sent
 import LoguruModel.Generated.QueueShape
 import LoguruModel.Queue.Async
+import LoguruModel.Queue.Worker
+import LoguruModel.Queue.EnqAsync
 /-
 C03 – property theorems about the producer / worker protocol of an `enqueue=True` handler
 (`Queue.step`), for every assignment of threads to processes and every schedule.
@@ -10,51 +12,140 @@ open Queue
 
 /-- all invariants hold in every reachable state -/
 theorem inv_run (proc : Tid → Pid) (sched : List (Tid × Lab)) :
-    Fifo (run proc {} sched) ∧ Conf (run proc {} sched) ∧ Sent proc (run proc {} sched) := by
-  suffices h : ∀ s, Fifo s → Conf s → Sent proc s →
-      Fifo (run proc s sched) ∧ Conf (run proc s sched) ∧ Sent proc (run proc s sched) from
-    h {} fifo_init conf_init (sent_init proc)
+    Fifo (run proc {} sched) ∧ Conf (run proc {} sched) ∧ Sent proc (run proc {} sched) ∧ Wr (run proc {} sched) := by
+  suffices h : ∀ s, Fifo s → Conf s → Sent proc s → Wr s →
+      Fifo (run proc s sched) ∧ Conf (run proc s sched) ∧ Sent proc (run proc s sched) ∧ Wr (run proc s sched) from
+    h {} fifo_init conf_init (sent_init proc) wr_init
   induction sched with
-  | nil => intro s a b c; exact ⟨a, b, c⟩
+  | nil => intro s a b c d; exact ⟨a, b, c, d⟩
   | cons x xs ih =>
-    intro s a b c
+    intro s a b c d
     obtain ⟨t, lab⟩ := x
     simp only [run]
     cases hs : step proc s t lab with
-    | some s' => exact ih s' (fifo_step a hs) (conf_step a b hs) (sent_step a c hs)
-    | none => exact ih s a b c
+    | some s' => exact ih s' (fifo_step a hs) (conf_step a b hs) (sent_step a c hs) (wr_step d hs)
+    | none => exact ih s a b c d
 
-/-- no loss, no duplication, whole messages, global put order: what the sink has written, followed by
-the message the worker holds, followed by the queued messages, is exactly the sequence of all
-messages ever put, in put order -/
+/-- a schedule in which no `queue.get()` and no `sink.write()` raises (the model of rounds 1–4) -/
+def errorFree (sched : List (Tid × Lab)) : Prop := ∀ x ∈ sched, isErr x.2 = false
+
+/-- in such a schedule everything the worker is done with has been written: the sink IS the handled log -/
+theorem error_free_sink (proc : Tid → Pid) (sched : List (Tid × Lab)) (he : errorFree sched) :
+    (run proc {} sched).sink = hmsgs (run proc {} sched).handled := by
+  have ha : AllW (run proc {} sched) := by
+    suffices h : ∀ s, AllW s → AllW (run proc s sched) from h {} allw_init
+    induction sched with
+    | nil => intro s h; exact h
+    | cons x xs ih =>
+      intro s h
+      obtain ⟨t, lab⟩ := x
+      have hx : isErr lab = false := he (t, lab) List.mem_cons_self
+      have he' : errorFree xs := fun y hy => he y (List.mem_cons_of_mem _ hy)
+      simp only [run]
+      cases hs : step proc s t lab with
+      | some s' => exact ih he' s' (allw_step hx h hs)
+      | none => exact ih he' s h
+  have hw := (inv_run proc sched).2.2.2
+  unfold Wr at hw
+  rw [hw]
+  exact writtenOf_allw _ ha
+
+/-- NO LOSS, NO DUPLICATION, WHOLE MESSAGES, GLOBAL PUT ORDER – also when `sink.write` or `queue.get` raise: what the
+worker is done with, followed by the message it holds, followed by the queued messages, is exactly the sequence of
+all messages ever put, in put order; and the sink holds exactly those handled messages whose write returned (an error
+costs the message it happened on – which is reported – and nothing else). -/
 theorem queue_fifo_exactly_once (proc : Tid → Pid) (sched : List (Tid × Lab)) :
     let s := run proc {} sched
-    s.sink ++ heldOf s.w ++ msgsOf s.queue = s.putLog :=
-  (inv_run proc sched).1
+    hmsgs s.handled ++ heldOf s.w ++ msgsOf s.queue = s.putLog ∧ s.sink = writtenOf s.handled :=
+  ⟨(inv_run proc sched).1, (inv_run proc sched).2.2.2⟩
 
-/-- the sink content is a prefix of the put log: every producer's messages reach the sink in the order
-that producer put them, each at most once -/
+/-- …without errors this is the statement of rounds 1–4 verbatim: written ++ in-flight ++ queued = put log -/
+theorem queue_fifo_exactly_once_error_free (proc : Tid → Pid) (sched : List (Tid × Lab)) (he : errorFree sched) :
+    let s := run proc {} sched
+    s.sink ++ heldOf s.w ++ msgsOf s.queue = s.putLog := by
+  intro s
+  have h := (queue_fifo_exactly_once proc sched).1
+  simp only at h
+  rw [← h, error_free_sink proc sched he]
+
+/-- every producer's messages reach the sink in the order that producer put them, each at most once – whatever
+errors the worker met: the sink restricted to a producer is a sub-sequence of what that producer put -/
 theorem per_producer_order (proc : Tid → Pid) (sched : List (Tid × Lab)) (t : Tid) :
+    let s := run proc {} sched
+    (s.sink.filter (fun e => e.1 = t)).Sublist (s.putLog.filter (fun e => e.1 = t)) := by
+  intro s
+  have h := queue_fifo_exactly_once proc sched
+  simp only at h
+  refine List.Sublist.filter _ ?_
+  rw [← h.1, h.2, List.append_assoc]
+  exact (writtenOf_sublist _).trans (List.sublist_append_left _ _)
+
+/-- …and without errors the sink restricted to a producer is a PREFIX of what it put (rounds 1–4 verbatim) -/
+theorem per_producer_order_error_free (proc : Tid → Pid) (sched : List (Tid × Lab)) (he : errorFree sched) (t : Tid) :
     let s := run proc {} sched
     ∃ rest, s.putLog.filter (fun e => e.1 = t) = s.sink.filter (fun e => e.1 = t) ++ rest := by
   intro s
-  have h := queue_fifo_exactly_once proc sched
+  have h := queue_fifo_exactly_once_error_free proc sched he
   refine ⟨(heldOf s.w ++ msgsOf s.queue).filter (fun e => e.1 = t), ?_⟩
   simp only at h
   rw [← h, List.append_assoc, List.filter_append]
 
-/-- BARRIER: when `complete_queue()` has returned in a thread, the first `k` messages of the put log –
-everything put before that thread put its confirmation item – have been written by the sink -/
+/-- BARRIER: when `complete_queue()` has returned in a thread (of ANY process: the confirmation lock and event are
+shared), the worker is done with the first `k` messages of the put log – everything put before that thread put its
+confirmation item: each of them has been written by the sink, or its own `get`/`write` error has been reported -/
 theorem complete_is_barrier (proc : Tid → Pid) (sched : List (Tid × Lab)) (t : Tid) (k : Nat)
     (hc : (t, k) ∈ (run proc {} sched).completed) :
     let s := run proc {} sched
-    k ≤ s.sink.length ∧ s.putLog.take k = s.sink.take k := by
+    k ≤ s.handled.length ∧ s.putLog.take k = hmsgs (s.handled.take k) ∧
+      writtenOf (s.handled.take k) = s.sink.take (writtenOf (s.handled.take k)).length := by
   intro s
   have hk := (inv_run proc sched).2.1.cf3 t k hc
   have hf := queue_fifo_exactly_once proc sched
-  refine ⟨hk, ?_⟩
   simp only at hf
-  rw [← hf, List.append_assoc, List.take_append_of_le_length hk]
+  refine ⟨hk, ?_, ?_⟩
+  · rw [← hf.1, List.append_assoc, List.take_append_of_le_length (by simpa using hk)]
+    simp only [hmsgs, List.map_take]
+    rfl
+  · have e : writtenOf (run proc {} sched).handled =
+        writtenOf ((run proc {} sched).handled.take k) ++ writtenOf ((run proc {} sched).handled.drop k) := by
+      rw [← writtenOf_append, List.take_append_drop]
+    show writtenOf ((run proc {} sched).handled.take k) =
+      (run proc {} sched).sink.take (writtenOf ((run proc {} sched).handled.take k)).length
+    rw [hf.2, e, List.take_left']
+    rfl
+
+/-- …message by message, for a completer of any process: whatever was put before its confirmation item – by its own
+process or by any other – is in the sink, or was reported as refused by the sink / unreadable by the worker -/
+theorem barrier_message_written_or_reported (proc : Tid → Pid) (sched : List (Tid × Lab)) (t : Tid) (k : Nat)
+    (hc : (t, k) ∈ (run proc {} sched).completed) (e : Tid × Nat)
+    (he : e ∈ (run proc {} sched).putLog.take k) :
+    e ∈ (run proc {} sched).sink ∨ ∃ o, o ≠ .written ∧ (e, o) ∈ (run proc {} sched).handled := by
+  have h := complete_is_barrier proc sched t k hc
+  simp only at h
+  rw [h.2.1] at he
+  have hw := (inv_run proc sched).2.2.2
+  unfold Wr at hw
+  rcases mem_hmsgs_cases _ _ he with h1 | ⟨o, ho, hm⟩
+  · left
+    rw [hw]
+    have : (writtenOf ((run proc {} sched).handled.take k)).Sublist (writtenOf (run proc {} sched).handled) := by
+      conv => rhs; rw [← List.take_append_drop k (run proc {} sched).handled]
+      rw [writtenOf_append]
+      exact List.sublist_append_left _ _
+    exact this.subset h1
+  · exact Or.inr ⟨o, ho, List.mem_of_mem_take hm⟩
+
+/-- …without errors: the first `k` messages of the put log have been WRITTEN (rounds 1–4 verbatim) -/
+theorem complete_is_barrier_error_free (proc : Tid → Pid) (sched : List (Tid × Lab)) (he : errorFree sched)
+    (t : Tid) (k : Nat) (hc : (t, k) ∈ (run proc {} sched).completed) :
+    let s := run proc {} sched
+    k ≤ s.sink.length ∧ s.putLog.take k = s.sink.take k := by
+  intro s
+  have h := complete_is_barrier proc sched t k hc
+  have hs := error_free_sink proc sched he
+  simp only at h
+  refine ⟨by rw [hs]; simpa using h.1, ?_⟩
+  rw [h.2.1, hs]; simp [hmsgs, List.map_take]
 
 /-- a waiting completer is never released early: while its confirmation item is still queued the
 event is clear -/
@@ -76,15 +167,15 @@ theorem no_confirmation_without_completer (proc : Tid → Pid) (sched : List (Ti
   let h := (inv_run proc sched).2.1.cf2 hl
   ⟨h.1, h.2.1⟩
 
-/-- OWNER REMOVE: when the owner's stop() has returned, everything put before the sentinel has been
-written, the worker has left its loop and the sink is stopped -/
+/-- OWNER REMOVE: when the owner's stop() has returned, the worker is done with everything put before the sentinel
+(each such message written, or its own error reported), it has left its loop and the sink is stopped -/
 theorem owner_remove_drains (proc : Tid → Pid) (sched : List (Tid × Lab))
     (hr : (run proc {} sched).removed = true) :
     let s := run proc {} sched
-    ∃ k, s.sentMark = some k ∧ s.sink.length = k ∧ s.putLog.take k = s.sink ∧
-      s.w = .done ∧ s.sinkStopped = true := by
+    ∃ k, s.sentMark = some k ∧ s.handled.length = k ∧ s.putLog.take k = hmsgs s.handled ∧
+      s.sink = writtenOf s.handled ∧ s.w = .done ∧ s.sinkStopped = true := by
   intro s
-  have hs := (inv_run proc sched).2.2
+  have hs := (inv_run proc sched).2.2.1
   have hf := queue_fifo_exactly_once proc sched
   obtain ⟨hw, hss⟩ := hs.a5 hr
   cases hm : s.sentMark with
@@ -92,10 +183,122 @@ theorem owner_remove_drains (proc : Tid → Pid) (sched : List (Tid × Lab))
   | some k =>
     rcases hs.a2 k hm with ⟨_, hnd, _⟩ | ⟨_, _, hlen⟩
     · exact absurd hw hnd
-    · refine ⟨k, rfl, hlen, ?_, hw, hss⟩
-      simp only at hf
-      rw [← hf, List.append_assoc, ← hlen, List.take_left']
+    · refine ⟨k, rfl, hlen, ?_, hf.2, hw, hss⟩
+      have h1 := hf.1
+      simp only at h1
+      rw [← h1, List.append_assoc, ← hlen, ← hmsgs_length, List.take_left']
       rfl
+
+/-- …without errors: everything put before the sentinel has been WRITTEN (rounds 1–4 verbatim) -/
+theorem owner_remove_drains_error_free (proc : Tid → Pid) (sched : List (Tid × Lab)) (he : errorFree sched)
+    (hr : (run proc {} sched).removed = true) :
+    let s := run proc {} sched
+    ∃ k, s.sentMark = some k ∧ s.sink.length = k ∧ s.putLog.take k = s.sink ∧
+      s.w = .done ∧ s.sinkStopped = true := by
+  intro s
+  obtain ⟨k, h1, h2, h3, _, h5, h6⟩ := owner_remove_drains proc sched hr
+  have hs := error_free_sink proc sched he
+  exact ⟨k, h1, by rw [hs]; simpa using h2, by rw [hs]; exact h3, h5, h6⟩
+
+/-- THE WORKER SURVIVES ERRORS: for every schedule – with any number of `queue.get()` calls that raise (with or
+without consuming the item) and `sink.write()` calls that raise – the worker has left its loop only if the owner's
+stop() put the sentinel and the worker consumed it -/
+theorem worker_survives_errors (proc : Tid → Pid) (sched : List (Tid × Lab))
+    (hw : (run proc {} sched).w = .done) :
+    ∃ k, (run proc {} sched).sentMark = some k ∧ (run proc {} sched).stopCalled 0 = true ∧
+      (run proc {} sched).queue.count .sentinel = 0 := by
+  have hs := (inv_run proc sched).2.2.1
+  cases hm : (run proc {} sched).sentMark with
+  | none => exact absurd hw (hs.a1 hm).2
+  | some k =>
+    rcases hs.a2 k hm with ⟨_, hnd, _⟩ | ⟨hc, _, _⟩
+    · exact absurd hw hnd
+    · exact ⟨k, rfl, hs.a7 k hm, hc⟩
+
+/-- …step by step: each of the three error transitions leaves the worker in its loop, consumes at most the one
+message it happened on and records it as reported – nothing else changes -/
+theorem worker_error_step (s s' : St) (lab : Lab) (he : lab = .getRaise ∨ lab = .writeFail ∨ ∃ i, lab = .getFail i)
+    (hs : stepW s lab = some s') :
+    s'.w = .loop ∧ s'.sink = s.sink ∧ s'.event = s.event ∧
+      (s'.handled = s.handled ∨ ∃ e o, o ≠ .written ∧ s'.handled = s.handled ++ [(e, o)]) := by
+  rcases he with rfl | rfl | ⟨i, rfl⟩ <;> w_arms hs <;> simp_all
+
+/-- tie G (regenerated from the AST of `Handler._queued_writer`): the loop runs for ever; every `except` clause around
+`queue.get()` and around `sink.write()` reports under the queue lock and goes on with the next iteration, and one of
+them names `Exception`; `None` and `True` are recognised by identity, in that order; there is no other `break`,
+`return` or `raise` in the loop – the sentinel is the only way out -/
+theorem worker_loop_of_source_is_safe : safeLoop Queue.ShapeGen.workerLoop = true := by decide
+
+/-- for EVERY exception class deriving from `Exception` (given by its MRO – `OSError` and `EOFError` families, pickling
+errors, anything a record's reconstruction can raise), the loop of the CURRENT SOURCE answers an error of
+`queue.get()` and an error of `sink.write()` by a report and the next iteration -/
+theorem worker_loop_survives_every_exception (mro : List String) (he : "Exception" ∈ mro) :
+    onRaise Queue.ShapeGen.workerLoop.getClauses mro = .next ∧
+    reportsOnRaise Queue.ShapeGen.workerLoop.getClauses mro = true ∧
+    onRaise Queue.ShapeGen.workerLoop.writeClauses mro = .next ∧
+    reportsOnRaise Queue.ShapeGen.workerLoop.writeClauses mro = true := by
+  have hl := worker_loop_of_source_is_safe
+  simp only [safeLoop, Bool.and_eq_true] at hl
+  obtain ⟨⟨⟨⟨⟨⟨_, hg⟩, _⟩, _⟩, hw⟩, _⟩, _⟩ := hl
+  exact ⟨(safe_onRaise _ hg mro he).1, (safe_onRaise _ hg mro he).2, (safe_onRaise _ hw mro he).1,
+    (safe_onRaise _ hw mro he).2⟩
+
+/-- the error transitions of `Queue.stepW` ARE the source's: for every exception class deriving from `Exception`, the
+worker state after `getFail` / `getRaise` / `writeFail` is the one Python's clause selection gives on the loop read
+from the source (so `inv_run`, `worker_survives_errors` and the barrier theorems speak about the code as it is) -/
+theorem model_error_steps_follow_source (mro : List String) (he : "Exception" ∈ mro) (s s' : St) :
+    (∀ i, stepW s (.getFail i) = some s' → s'.w = wpcOf (onRaise Queue.ShapeGen.workerLoop.getClauses mro)) ∧
+    (stepW s .getRaise = some s' → s'.w = wpcOf (onRaise Queue.ShapeGen.workerLoop.getClauses mro)) ∧
+    (stepW s .writeFail = some s' → s'.w = wpcOf (onRaise Queue.ShapeGen.workerLoop.writeClauses mro)) :=
+  stepW_errors_follow_loop _ worker_loop_of_source_is_safe mro he s s'
+
+/-- NO LOSS THROUGH A DEAD WORKER: in every reachable state and for every exception class deriving from `Exception`
+that `queue.get()` (which also un-pickles the record) or `sink.write()` may raise – the source's loop goes on, and
+the worker of the model has left its loop only by consuming the owner's sentinel -/
+theorem worker_leaves_only_by_sentinel (proc : Tid → Pid) (sched : List (Tid × Lab)) (mro : List String)
+    (he : "Exception" ∈ mro) :
+    (wpcOf (onRaise Queue.ShapeGen.workerLoop.getClauses mro) = .loop ∧
+     wpcOf (onRaise Queue.ShapeGen.workerLoop.writeClauses mro) = .loop ∧
+     Queue.ShapeGen.workerLoop.otherExits = 0 ∧ Queue.ShapeGen.workerLoop.sentinelLeaves = true) ∧
+    ((run proc {} sched).w = .done → ∃ k, (run proc {} sched).sentMark = some k ∧
+      (run proc {} sched).queue.count .sentinel = 0) := by
+  have h := worker_loop_survives_every_exception mro he
+  refine ⟨⟨by rw [h.1]; rfl, by rw [h.2.2.1]; rfl, by decide, by decide⟩, ?_⟩
+  intro hw
+  obtain ⟨k, h1, _, h3⟩ := worker_survives_errors proc sched hw
+  exact ⟨k, h1, h3⟩
+
+/-- the clause `except (EOFError, OSError): break` put in front of the generic one is refuted: a record whose
+reconstruction raises `FileNotFoundError` would end the thread -/
+theorem narrow_break_clause_is_unsafe :
+    let bad : List Clause := [⟨["EOFError", "OSError"], false, false, .leave⟩, ⟨["Exception"], true, true, .next⟩]
+    let mro := ["FileNotFoundError", "OSError", "Exception", "BaseException", "object"]
+    onRaise bad mro = .leave ∧ safeClauses bad = false ∧
+      onRaise [⟨["Exception"], true, true, .next⟩] mro = .next :=
+  narrow_break_clause_kills_worker
+
+/-- non-vacuity: `FileNotFoundError` derives from `Exception`; the source's loop goes on -/
+example : onRaise Queue.ShapeGen.workerLoop.getClauses
+    ["FileNotFoundError", "OSError", "Exception", "BaseException", "object"] = .next := by decide
+
+/-- NOTHING IS LOST SILENTLY: every message ever put is, at any time, either written, or reported as refused by the
+sink / unreadable by the worker, or still in flight (held by the worker or queued) -/
+theorem every_accepted_message_accounted_for (proc : Tid → Pid) (sched : List (Tid × Lab)) (e : Tid × Nat)
+    (he : e ∈ (run proc {} sched).putLog) :
+    let s := run proc {} sched
+    e ∈ s.sink ∨ (∃ o, o ≠ .written ∧ (e, o) ∈ s.handled) ∨ e ∈ heldOf s.w ∨ e ∈ msgsOf s.queue := by
+  intro s
+  have hf := queue_fifo_exactly_once proc sched
+  simp only at hf
+  rw [← hf.1] at he
+  simp only [List.mem_append] at he
+  rcases he with (h | h) | h
+  · rw [hf.2]
+    rcases mem_hmsgs_cases _ _ h with h | h
+    · exact Or.inl h
+    · exact Or.inr (Or.inl h)
+  · exact Or.inr (Or.inr (Or.inl h))
+  · exact Or.inr (Or.inr (Or.inr h))
 
 /-- …and nothing is written afterwards: a worker that has left its loop has no transition -/
 theorem nothing_written_after_worker_exit (s : St) (hw : s.w = .done) (lab : Lab) : stepW s lab = none := by
@@ -119,7 +322,7 @@ theorem child_never_past_local_stop (proc : Tid → Pid) (sched : List (Tid × L
     (ht : t ≠ workerTid) (hp : proc t ≠ 0) : postSent ((run proc {} sched).pc t) = false := by
   cases h : postSent ((run proc {} sched).pc t)
   · rfl
-  · exact absurd ((inv_run proc sched).2.2.a6 t ht h) hp
+  · exact absurd ((inv_run proc sched).2.2.1.a6 t ht h) hp
 
 /-- non-vacuity: owner thread 1 logs, child thread 2 (process 1) logs and completes, owner removes -/
 example :
@@ -136,6 +339,27 @@ example :
     let s := run proc {} sched
     s.sink = [(1, 10), (2, 20)] ∧ s.completed = [(2, 2)] ∧ s.removed = true ∧ s.w = .done ∧
       s.sentMark = some 2 := by
+  decide
+
+/-- non-vacuity with errors: the sink refuses the owner's message, the child's first message cannot be un-pickled by
+the worker, `queue.get()` fails once without consuming anything; the child's second message is written, its
+complete() returns (barrier over 3 handled messages), the owner removes -/
+example :
+    let proc : Tid → Pid := fun t => if t = 2 then 1 else 0
+    let sched : List (Tid × Lab) := [
+      (1, .startLog 10), (1, .acqL), (1, .rStopped false), (1, .put (.msg 1 10)), (1, .relL),
+      (2, .startLog 20), (2, .acqL), (2, .rStopped false), (2, .put (.msg 2 20)), (2, .relL),
+      (2, .startLog 21), (2, .acqL), (2, .rStopped false), (2, .put (.msg 2 21)), (2, .relL),
+      (1, .startLog 11), (1, .acqL), (1, .rStopped false), (1, .putFail), (1, .relL),
+      (2, .startComplete), (2, .acqConf), (2, .put .confirm),
+      (0, .getRaise), (0, .get (.msg 1 10)), (0, .writeFail), (0, .getFail (.msg 2 20)),
+      (0, .get (.msg 2 21)), (0, .write), (0, .get .confirm), (0, .setEvent),
+      (2, .waitEvent), (2, .clearEvent), (2, .relConf),
+      (1, .startStop), (1, .acqL), (1, .wStopped), (1, .put .sentinel),
+      (0, .get .sentinel), (1, .join), (1, .sinkStop), (1, .relL)]
+    let s := run proc {} sched
+    s.sink = [(2, 21)] ∧ s.putLog = [(1, 10), (2, 20), (2, 21)] ∧ s.completed = [(2, 3)] ∧ s.removed = true ∧
+      s.handled = [((1, 10), .refused), ((2, 20), .unreadable), ((2, 21), .written)] ∧ s.w = .done := by
   decide
 
 /-- tie G: the statements of `Handler.emit` (critical section), `stop`, `complete_queue` and the control-item
@@ -155,6 +379,23 @@ theorem queue_shape_of_source :
     Queue.ShapeGen.emitCritical =
       ["if self._stopped: return",
        "if self._enqueue: self._queue.put(str_record) else: self._sink.write(str_record)"] := by
+  decide
+
+/-- the attributes of a handler that make up the cross-process channel: in a child that received the logger by
+pickling they must be the parent's (queue, confirmation event and lock: shared objects; owner pid, `_stopped`,
+`_enqueue`: copied values) -/
+def channelAttrs : List String :=
+  ["_queue", "_confirmation_event", "_confirmation_lock", "_owner_process_pid", "_stopped", "_enqueue"]
+
+/-- tie G (regenerated from `Handler.__getstate__` / `__setstate__`) for the per-process part of `Queue.step`: a
+pickled child keeps every channel attribute (none is blanked or re-created), gets a FRESH handler lock (`lock : Pid →
+…` is per process), and has neither the sink nor the worker thread (only the owner writes, joins and stops) -/
+theorem pickled_child_of_source :
+    (∀ a ∈ channelAttrs, a ∉ Queue.ShapeGen.pickleBlanked.map (·.1) ∧ a ∉ Queue.ShapeGen.pickleFresh.map (·.1)) ∧
+    ("_lock", "") ∈ Queue.ShapeGen.pickleBlanked ∧
+    ("_lock", "create_handler_lock()", "") ∈ Queue.ShapeGen.pickleFresh ∧
+    ("_sink", "self._enqueue") ∈ Queue.ShapeGen.pickleBlanked ∧
+    ("_thread", "self._enqueue") ∈ Queue.ShapeGen.pickleBlanked := by
   decide
 
 /-- tie G for the premise "an accepted message always enters the queue": `put` pickles the formatted text with its
@@ -204,6 +445,42 @@ example :
 /-- tie G: the snapshot is taken under the handler lock and `_complete_task` skips foreign loops before awaiting -/
 theorem async_shape_of_source :
     Queue.ShapeGen.asyncSnapshotUnderLock = true ∧ Queue.ShapeGen.asyncSkipsForeignLoop = true := by decide
+
+/-! ### `enqueue=True` together with a coroutine sink (`Queue/EnqAsync.lean`) -/
+
+/-- tie G (regenerated from `Logger.complete`): for each handler `complete_queue()` is called strictly before
+`tasks_to_complete()`, both under the core lock -/
+theorem complete_order_of_source : Queue.ShapeGen.completeQueueBeforeTasks = true := by decide
+
+/-- `await logger.complete()` on a handler that is both enqueued and a coroutine sink, with the order of the two calls
+AS READ FROM THE SOURCE: whenever an awaited complete() on loop `l` has returned, the worker is done with every
+message accepted before the call (`m < k`), and each of them that got a task on `l` has that task finished – for every
+schedule of producers, worker, event loops and concurrent completers. -/
+theorem enqueued_async_complete_waits (sched : List (EnqAsync.Tid × EnqAsync.Lab)) (l k : Nat)
+    (h : (l, k) ∈ (EnqAsync.run Queue.ShapeGen.completeQueueBeforeTasks {} sched).returned) :
+    let s := EnqAsync.run Queue.ShapeGen.completeQueueBeforeTasks {} sched
+    k ≤ s.handled ∧ ∀ m i, m < k → s.taskOf m = some i → (s.task i).loop = l → (s.task i).done = true := by
+  rw [complete_order_of_source] at h ⊢
+  exact (EnqAsync.inv_run sched).ret l k h
+
+/-- the opposite order is refuted: a message still queued when the snapshot is taken is missed – complete() returns
+although the task of a message logged before it has not run -/
+theorem swapped_order_witness :
+    let sched : List (EnqAsync.Tid × EnqAsync.Lab) :=
+      [(1, .log), (2, .startComplete 0), (2, .snapshot), (0, .workerWrite 0), (2, .barrier), (2, .finish)]
+    let s := EnqAsync.run false {} sched
+    s.returned = [(0, 1)] ∧ s.taskOf 0 = some 0 ∧ (s.task 0).loop = 0 ∧ (s.task 0).done = false := by
+  decide
+
+/-- non-vacuity: two messages, the second one dropped by the sink (no loop); the completer waits for the first one's task -/
+example :
+    let sched : List (EnqAsync.Tid × EnqAsync.Lab) :=
+      [(1, .log), (1, .log), (2, .startComplete 0), (2, .barrier),            -- blocked: nothing handled yet
+       (0, .workerWrite 0), (0, .workerDrop), (2, .barrier), (2, .snapshot), (2, .await),   -- blocked: task 0 not done
+       (9, .run 0), (2, .await), (2, .finish)]
+    let s := EnqAsync.run true {} sched
+    s.returned = [(0, 2)] ∧ s.handled = 2 ∧ s.taskOf 0 = some 0 ∧ s.taskOf 1 = none ∧ (s.task 0).done = true := by
+  decide
 
 /-- tie G for "a sink error never stops the worker": whatever `ErrorInterceptor.print` does with `sys.stderr` happens
 inside the `try` that swallows `OSError`, so a broken `sys.stderr` cannot make the worker's own error report raise
